@@ -126,7 +126,7 @@ def run_case(case):
         V('run_aborted', res.escaped_tb or res.escaped)
     per = {}
     for ev in res.trace:
-        per.setdefault(ev[0], []).append(ev[1:-3])
+        per.setdefault(ev[0], []).append(ev[1:-4])
     any_bad = False
     bad_seen_global = False
     for vpid in sorted(per):
